@@ -1,6 +1,7 @@
 // env/attrmap_holder.cpp - definitions for normalisation N11 (see engine/vp.py): the attribute-map member of
 // OSAttribute behind a type-erased, share-on-copy handle.  CBMC mode only; the native twin uses the real header.
-#ifndef VP_NATIVE
+#include "vp.h"
+#ifndef VP_NATIVE_DYN
 #include "config.h"
 #include "OSAttribute.h"
 
